@@ -164,25 +164,41 @@ class InputMutated(Exception):
         self.canon = canon
 
 
-VARIANTS = ['f64-C', 'f64-C', 'f64-F', 'f32-C', 'f64-bkg32', 'f64-C-view']
+VARIANTS = ['f64-C', 'f64-C', 'f64-F', 'f32-C', 'f64-bkg32', 'f64-C-view', 'be-f64', 'be-f32']
+# mixed-dtype variants need values chosen for them (exactly representable in the narrower type): used by gen_near_case
+MIXED = ['f32-im', 'f32-maps', 'be-f32-im', 'f32-im-F']
 
 
 def prepare_inputs(im, bkg, rms, variant='f64-C'):
-    """the arrays handed to find_islands: dtype / memory-order variants of the same (exactly representable) values"""
+    """the arrays handed to find_islands: dtype / byte-order / memory-order variants of the same values
+    (the generator guarantees they are exactly representable in the narrower type)"""
+    f8, f4 = np.float64, np.float32
     if variant == 'f32-C':
-        return tuple(np.ascontiguousarray(a, dtype=np.float32) for a in (im, bkg, rms))
+        return tuple(np.ascontiguousarray(a, dtype=f4) for a in (im, bkg, rms))
     if variant == 'f64-F':
-        return tuple(np.asfortranarray(a, dtype=np.float64) for a in (im, bkg, rms))
+        return tuple(np.asfortranarray(a, dtype=f8) for a in (im, bkg, rms))
     if variant == 'f64-bkg32':
-        return (np.array(im, dtype=np.float64), np.array(bkg, dtype=np.float32), np.array(rms, dtype=np.float64))
+        return (np.array(im, dtype=f8), np.array(bkg, dtype=f4), np.array(rms, dtype=f8))
+    if variant == 'f32-im':           # float32 image (as most radio images are) with float64 maps
+        return (np.array(im, dtype=f4), np.array(bkg, dtype=f8), np.array(rms, dtype=f8))
+    if variant == 'f32-im-F':
+        return (np.asfortranarray(im, dtype=f4), np.asfortranarray(bkg, dtype=f8), np.asfortranarray(rms, dtype=f8))
+    if variant == 'f32-maps':         # float64 image with float32 maps
+        return (np.array(im, dtype=f8), np.array(bkg, dtype=f4), np.array(rms, dtype=f4))
+    if variant == 'be-f32-im':        # big-endian, as read from a FITS file
+        return (np.array(im, dtype='>f4'), np.array(bkg, dtype='>f8'), np.array(rms, dtype='>f8'))
+    if variant == 'be-f64':
+        return tuple(np.array(a, dtype='>f8') for a in (im, bkg, rms))
+    if variant == 'be-f32':
+        return tuple(np.array(a, dtype='>f4') for a in (im, bkg, rms))
     if variant == 'f64-C-view':     # non-owning views into larger float64 buffers
         out = []
         for a in (im, bkg, rms):
-            big = np.zeros((a.shape[0] + 2, a.shape[1] + 3), dtype=np.float64)
+            big = np.zeros((a.shape[0] + 2, a.shape[1] + 3), dtype=f8)
             big[1:-1, 2:-1] = a
             out.append(big[1:-1, 2:-1])
         return tuple(out)
-    return tuple(np.array(a, dtype=np.float64, order='C') for a in (im, bkg, rms))
+    return tuple(np.array(a, dtype=f8, order='C') for a in (im, bkg, rms))
 
 
 def call_find_islands(arrs, flood, seed, region=None, wcs=None):
@@ -205,7 +221,7 @@ def run_impl(im, bkg, rms, flood, seed, region=None, wcs=None, variant='f64-C'):
 
 
 def variant_of(c):
-    return VARIANTS[int(case_key(c), 16) % len(VARIANTS)]
+    return c.get('variant') or VARIANTS[int(case_key(c), 16) % len(VARIANTS)]
 
 
 def report_mutation(ctx, c, e, extra=None):
@@ -483,6 +499,63 @@ def gen_case(rng, kind=None, small=False, inf_mode=False):
     return mk_case(kind + ('+inf' if inf_mode else ''), im, bkg, rms, flood, seed)
 
 
+def exact_masks(c):
+    """flood / seed masks by exact rational arithmetic on the STORED values: snr = |im - bkg| / rms over Q"""
+    from fractions import Fraction
+    im, bkg, rms, flood, seed, _ = arrays(c)
+    H, W = im.shape
+    A = np.zeros((H, W), dtype=bool)
+    S = np.zeros((H, W), dtype=bool)
+    fl, sd = Fraction(flood), Fraction(seed)
+    for r in range(H):
+        for q in range(W):
+            v = (im[r, q], bkg[r, q], rms[r, q])
+            if all(np.isfinite(x) for x in v) and v[2] != 0:
+                x = abs(Fraction(float(v[0])) - Fraction(float(v[1]))) / Fraction(float(v[2]))
+                A[r, q] = x >= fl
+                S[r, q] = x > sd
+    return A, S
+
+
+def float64_agrees_with_exact(c):
+    im, bkg, rms, flood, seed, _ = arrays(c)
+    with np.errstate(all='ignore'):
+        snr = np.abs(im - bkg) / rms
+        A = np.isfinite(snr) & (snr >= flood)
+        S = np.isfinite(snr) & (snr > seed)
+    EA, ES = exact_masks(c)
+    return np.array_equal(A, EA) and np.array_equal(S, ES)
+
+
+def gen_near_case(rng, k=0):
+    """mixed-dtype grids whose signal-to-noise sits within a few float32 ulps of a threshold: the lattice
+    value t (flood or seed) is divided by rms * (1 +/- delta), delta = 2^-30 (float64 maps; ~0.008 float32 ulp,
+    so a float32 snr lands ON the threshold) or 2^-20 (float32 maps; 8 ulps).  Expected membership is decided by
+    exact rational arithmetic on the stored values, and only grids on which IEEE double arithmetic agrees with it
+    are kept (it always does: 2^-30 is 4e6 double ulps)."""
+    variant = MIXED[k % len(MIXED)]
+    for _try in range(20):
+        kind = ['random', 'diag', 'bars', 'lshape', 'ring'][rng.integers(0, 5)]
+        H, W = int(rng.integers(1, 10)), int(rng.integers(1, 10))
+        flood = float(rng.choice(FLOODS))
+        seed = flood + float(rng.choice(SEED_STEPS))
+        on = pattern(rng, H, W, kind)
+        im, bkg, rms = realise(rng, on, flood, seed, 0.1, zero_mode=0, nan_mode=int(rng.choice([0, 0, 1])))
+        delta = 2.0 ** -20 if variant == 'f32-maps' else 2.0 ** -30
+        with np.errstate(all='ignore'):
+            snr = np.abs(im - bkg) / rms
+        tie = np.isfinite(snr) & ((snr == flood) | (snr == seed))
+        pert = rng.choice([0.0, delta, -delta, 2 * delta, -2 * delta], size=(H, W))
+        rms = np.where(tie, rms * (1.0 + pert), rms)
+        c = mk_case('near-' + kind, im, bkg, rms, flood, seed, extra=dict(variant=variant))
+        # the values must survive the cast to the variant's dtypes
+        arrs = prepare_inputs(im, bkg, rms, variant)
+        same = all(np.array_equal(np.asarray(a, dtype=np.float64), b, equal_nan=True) for a, b in zip(arrs, (im, bkg, rms)))
+        if same and float64_agrees_with_exact(c):
+            return c
+    return None
+
+
 def fixed_cases():
     """the witnesses of DESIGN §6 items 3 and 21, plus a few hand cases; always run first"""
     out = []
@@ -628,6 +701,29 @@ def seed_monotone_pairs(ctx, rng, n):
         judge_sequence(ctx, c, seeds, VARIANTS[k % len(VARIANTS)])
 
 
+PRIME_SEED = 20260930
+
+
+def prime_fit(ctx):
+    """what a long-lived process does between two find_islands calls: a full find_sources_in_image run that fits
+    big islands (deterministic image, so a replay can re-create the history)"""
+    rng = np.random.default_rng(PRIME_SEED)
+    im = blob_image(rng, nblob=4)
+    c = mk_case('finder', im, np.zeros_like(im), np.ones_like(im), 4.0, 5.0, extra=dict(finder=True))
+    finder_one(ctx, c)
+    _state['fits_done'] += 1
+
+
+_state = dict(fits_done=0)
+
+
+def with_history(cases):
+    if _state['fits_done']:
+        for c in cases:
+            c['history'] = 'after-fit'
+    return cases
+
+
 def run(ctx):
     common.use_repo()
     rng = np_rng(ctx)
@@ -638,15 +734,46 @@ def run(ctx):
     # a small stream with infinite image values (non-finite = blank for the property)
     for k in range(60 if ctx.quick else 1500):
         cases.append(gen_case(rng, small=(k % 2 == 0), inf_mode=True))
-    for lo in range(0, len(cases), 4000):
-        evaluate(ctx, 'C02', cases[lo:lo + 4000])
+    # mixed dtypes / byte orders with values a few float32 ulps from the thresholds (exact rational judge)
+    near = [gen_near_case(rng, k) for k in range(200 if ctx.quick else 4000)]
+    cases += [c for c in near if c is not None]
+    # a history in one process: the first block runs in a fresh process state, then fits of big islands
+    # (find_sources_in_image) are interleaved BETWEEN blocks of find_islands cases
+    first = 300
+    evaluate(ctx, 'C02', cases[:first])
+    block = 700 if ctx.quick else 4000
+    order = list(range(first, len(cases)))
+    ctx.rng.shuffle(order)
+    for lo in range(0, len(order), block):
+        if lo // block < (3 if ctx.quick else 12):
+            prime_fit(ctx) if lo == 0 else finder_runs(ctx, rng, 1, with_region=False)
+            _state['fits_done'] += 1
+        evaluate(ctx, 'C02', with_history([cases[i] for i in order[lo:lo + block]]))
     for c in fixed_cases():
         _, _, _, flood, seed, _ = arrays(c)
-        judge_sequence(ctx, c, [seed, seed + 1.0, seed], 'f64-C')
+        judge_sequence(ctx, with_history([c])[0], [seed, seed + 1.0, seed], 'f64-C')
     seed_monotone_pairs(ctx, rng, 300 if ctx.quick else 5000)
     shrink_failures(ctx)
     if not ctx.quick:
-        finder_runs(ctx, rng, 40, with_region=False)
+        finder_runs(ctx, rng, 30, with_region=False)
+
+
+def fresh_process_fails(c):
+    """the clauses violated when the same case is run in a FRESH python process (no earlier calls)"""
+    import json
+    import subprocess
+    import sys
+    code = ("import sys, json; sys.path.insert(0, %r); import common; common.use_repo(); import corr_C02 as m; "
+            "print('RESULT' + json.dumps(m.fails(json.load(sys.stdin))))" % os.path.join(common.VERIF, 'harness'))
+    try:
+        p = subprocess.run([sys.executable, '-c', code], input=json.dumps({k: v for k, v in c.items() if k != 'pretty'}),
+                           capture_output=True, text=True, timeout=300)
+        for line in p.stdout.splitlines():
+            if line.startswith('RESULT'):
+                return json.loads(line[6:])
+    except Exception:
+        pass
+    return None
 
 
 def shrink_failures(ctx, limit=4):
@@ -666,9 +793,20 @@ def shrink_failures(ctx, limit=4):
             s = shrink(c, lambda x, cl=clause: cl in fails(x))
         except Exception:
             continue
+        hist = None
+        if c.get('history'):
+            fresh = fresh_process_fails(s)
+            if fresh is not None and clause not in fresh:
+                hist = ('the same grid is answered correctly by a FRESH process; in this process find_sources_in_image '
+                        'had fitted islands before (history-dependence)')
+                s['history'] = c['history']
         n0 = len(ctx.failures)
         evaluate(ctx, 'C02', [s], use_lean=ctx.driver_ok)
         ctx.evaluations -= 1
+        for g in ctx.failures[n0:]:
+            if hist and g['kind'] == 'spec':
+                g['signature'] = dict(g['signature'], what='history-dependence')
+                g['detail'] = dict(g['detail'], history=hist) if isinstance(g['detail'], dict) else f"{g['detail']}; {hist}"
         small += ctx.failures[n0:]
         del ctx.failures[n0:]
     ctx.failures[:0] = small
@@ -682,7 +820,7 @@ def fails(c, clause=None):
     im, bkg, rms, flood, seed, inside = arrays(c)
     want, comps = oracle(im, bkg, rms, flood, seed, inside)
     try:
-        impl = run_impl(im, bkg, rms, flood, seed)
+        impl = run_impl(im, bkg, rms, flood, seed, variant=variant_of(c))
     except InputMutated:
         return ['input-mutated']
     except Exception:
@@ -694,8 +832,11 @@ def shrink(c, still_fails):
     """greedy: crop rows/columns, then switch pixels off (image := background), while it still fails"""
     im, bkg, rms, flood, seed, inside = arrays(c)
 
+    keep = {k: c[k] for k in ('variant', 'history') if c.get(k)}
+    keep.setdefault('variant', variant_of(c))      # the shrunk grid is run with the same dtype / layout
+
     def mk(im, bkg, rms):
-        return mk_case(c['kind'] + '-shrunk', im, bkg, rms, flood, seed)
+        return mk_case(c['kind'] + '-shrunk', im, bkg, rms, flood, seed, extra=keep)
     changed = True
     while changed:
         changed = False
@@ -744,6 +885,9 @@ def replay(ctx, rec):
     if c.get('finder'):
         finder_one(ctx, c, report=True)
         return
+    if c.get('history') == 'after-fit':       # re-create the history the case was observed under
+        prime_fit(ctx)
+        ctx.evaluations = 0
     if 'seeds' in c:
         seeds = [common.h2f(x) for x in c.pop('seeds')]
         variant = c.pop('variant', 'f64-C')
